@@ -29,14 +29,16 @@ Documented effects, one line each (D = documentation, C = resolved towards the c
   resolveVariables              D  var() is replaced by the value of the variable, @variables rules are removed,
                                    a reference that cannot be resolved is kept untouched
   importHrefFormat              D  None: as written, 'string': "href", 'uri': url(href)
-  defaultAtKeyword              D  default form of the at-keyword, else the literal one; C: an unknown at-rule has no
-                                   default form and always keeps its spelling
+  defaultAtKeyword              D  default form of the at-keyword, else the literal one (the default form of an unknown
+                                   at-rule is its normalised keyword)
   defaultPropertyName           D  normalised name, else the literal one; only used if keepAllProperties is False
   defaultPropertyPriority       D  normalised priority, else the literal one
   normalizedVarNames            D  names in @variables blocks are written normalised, else as given
   minimizeColorHash             D  #rrggbb is written #rgb when r, g, b are doubled digits
   omitLeadingZero               D  numbers between -1 and 1 are written without the 0
-  omitLastSemicolon             D  no ';' after the last declaration of a block
+  omitLastSemicolon             D  no ';' after the last declaration of a block; C (pinned by the repository's tests): the
+                                   ';' stays when the declaration is not the last item of the block in the DOM (a comment, an
+                                   unknown at-rule or a filtered declaration follows); @page and @variables blocks are not judged
   everything else               D  white space only
 """
 import re
@@ -441,7 +443,9 @@ def _apply_body(body, a, variables):
             if a['defaultPropertyPriority'] and d['prio']:
                 d['lprio'] = d['prio']
             out.append(d)
-    return out
+    # the last item of the block is a declaration and it is written
+    lastkept = bool(body) and body[-1]['k'] == 'decl' and id(body[-1]) in keep
+    return out, lastkept
 
 
 def _apply_rules(rules, a, variables, used):
@@ -469,12 +473,12 @@ def _apply_rules(rules, a, variables, used):
             if a['importHrefFormat'] in ('string', 'uri'):
                 n['hreftype'] = a['importHrefFormat']
         if 'body' in n:
-            n['body'] = _apply_body(n['body'], a, variables)
+            n['body'], n['lastkept'] = _apply_body(n['body'], a, variables)
         if 'rules' in n:
             n['rules'] = _apply_rules(n['rules'], a, variables, used)
         if ('body' in n or 'rules' in n) and not n.get('body') and not n.get('rules') and not a['keepEmptyRules']:
             continue
-        if 'kw' in n and k != 'unknown' and a['defaultAtKeyword']:
+        if 'kw' in n and a['defaultAtKeyword']:
             n['kw'] = norm(n['kw'])
         out.append(n)
     return out
@@ -524,6 +528,27 @@ def expected_hashes(tree, a):
 
     walk(tree)
     return out
+
+
+def semicolon_bounds(tree):
+    """(blocks that must end without ';', blocks that may end with ';' after a declaration) when omitLastSemicolon is on"""
+    must = may = 0
+    for n in _all(tree):
+        if n['k'] == 'variables':
+            may += 1
+        elif 'body' in n and any(b['k'] == 'decl' for b in n['body']):
+            if n['k'] != 'page' and n.get('lastkept'):
+                must += 1
+            else:
+                may += 1
+    return must, may
+
+
+def _all(tree):
+    for n in tree:
+        yield n
+        if 'rules' in n:
+            yield from _all(n['rules'])
 
 
 _FRACTION = re.compile(r'^[+-]?(\d*)\.\d')
